@@ -578,6 +578,68 @@ def slow_churn(x: fp.Real) -> fp.Real:
         z = churn(y)
     return y * 2 + z
 
+# ---- index loops of different lengths: every index value matters to the result ----
+@fp.fpy
+def idx5(x: fp.Real) -> fp.Real:
+    acc = x
+    for i in range(5):
+        acc = acc + i * (i + x)
+    return acc
+
+
+@fp.fpy
+def idx12(x: fp.Real) -> fp.Real:
+    acc = x
+    for i in range(12):
+        acc = acc + i * (i + x)
+    return acc
+
+
+@fp.fpy
+def idx40(x: fp.Real) -> fp.Real:
+    with fp.FP64:
+        acc = x
+        for i in range(40):
+            acc = acc + i * (i + x)
+    return acc
+
+
+@fp.fpy
+def idx_step(x: fp.Real) -> fp.Real:
+    acc = x
+    for i in range(2, 30, 3):
+        acc = acc * 2 + i
+    for j in range(7):
+        acc = acc - j
+    return acc
+
+
+@fp.fpy
+def enum_w(xs: list[fp.Real]) -> fp.Real:
+    ys = [xs[0] + k for k in range(15)]
+    acc = 0
+    for i, y in enumerate(ys):
+        acc = acc + (i + 1) * y
+    return acc
+
+
+# ---- twins whose constants differ only in the sign of a zero (equal as numbers, not the same value) ----
+@fp.fpy
+def zs_pos(x: fp.Real) -> tuple[fp.Real, fp.Real]:
+    with fp.FP64:
+        z = 0.0 * 2.0
+        w = 0.0 + 0.0
+        return (x / z, x / w)
+
+
+@fp.fpy
+def zs_neg(x: fp.Real) -> tuple[fp.Real, fp.Real]:
+    with fp.FP64:
+        z = -0.0 * 2.0
+        w = -0.0 + -0.0
+        return (x / z, x / w)
+
+
 # ---- programs nested deeply: one operator chain, as program generators and inlining produce them ----
 # `deep_chain` (a thousand terms) is nested deeper than the interpreter's default recursion limit lets
 # the library compile: evaluating it fails with RecursionError -- in every process, thread and history
@@ -656,6 +718,13 @@ def muladd16(a: fp.Real, b: fp.Real, c: fp.Real) -> tuple[fp.Real, fp.Real]:
 
 
 SIG = {
+    'idx5': ['num'],
+    'idx12': ['num'],
+    'idx40': ['num'],
+    'idx_step': ['num'],
+    'enum_w': ['list1+'],
+    'zs_pos': ['pos'],
+    'zs_neg': ['pos'],
     'deep_chain': ['num'],
     'chain100': ['num'],
     'muladd8': ['num', 'num', 'num'],
@@ -728,6 +797,12 @@ SIG = {
 AMBIENT = ['extremes', 'use_table', 'use_pass_list', 'pinned32', 'pinned_rtz16', 'calls_pinned', 'tenth', 'helper_noctx', 'calls', 'alt_loop', 'ident', 'boosted', 'dot', 'sum_enum', 'early', 'nested',
            'uses_closure', 'shadowing', 'deep_chain', 'chain100']
 
+# functions whose loops run over indices the interpreter makes: the loop stampede
+LOOPS = ['idx40', 'idx5', 'enum_w', 'idx12', 'idx_step', 'sum_enum', 'dot', 'alt_loop']
+
+# twins: derived copies that must not be taken for each other (the second pair differs in the sign of a zero)
+TWINS = [['q_a16', 'q_b8'], ['zs_pos', 'zs_neg']]
+
 # functions that pin their own context with @fp.fpy(ctx=...) (a common idiom): the caller's ctx= must not matter
 PINNED = ['pinned32', 'pinned_rtz16', 'calls_pinned']
 
@@ -747,7 +822,7 @@ BOUNDARY = RETURNS_LISTS + ['deep', 'mut_list', 'share_call', 'dot', 'sum_enum',
 # functions whose value under one context may meet what was kept from another: the context ladder
 LADDER = ['tenth', 'consts', 'circle', 'muladd', 'extremes', 'helper_noctx']
 
-SPECIAL = ['deep_chain', 'widen', 'slow_churn', 'chain100', 'fill', 'tally', 'litrow', 'circle', 'consts', 'muladd', 'muladd16', 'pinned32', 'narrow', 'extremes', 'tenth', 'use_table', 'uses_closure', 'deep', 'ret_param', 'via_prim', 'calls_failing',
+SPECIAL = ['deep_chain', 'zs_neg', 'idx40', 'enum_w', 'zs_pos', 'idx_step', 'widen', 'slow_churn', 'chain100', 'fill', 'tally', 'litrow', 'circle', 'consts', 'muladd', 'muladd16', 'pinned32', 'narrow', 'extremes', 'tenth', 'use_table', 'uses_closure', 'deep', 'ret_param', 'via_prim', 'calls_failing',
            'calls', 'pinned_rtz16', 'narrow_neg', 'tenth16', 'use_pass_list', 'shadowing', 'ident_pair', 'ret_pair',
            'via_picky', 'asserting', 'cap_num', 'calls_pinned', 'narrow_all', 'tenth32', 'mut_list', 'nested_lists',
            'share_call', 'indexer', 'exact_or_fail', 'trans', 'directed', 'ident', 'slices',
@@ -759,6 +834,9 @@ FAILING = ['asserting', 'indexer', 'exact_or_fail', 'calls_failing', 'via_picky'
 
 # strategies that may be applied to each function (name -> list of (strategy, kwargs))
 DERIVABLE = {
+    'zs_pos': [('simplify', {})],
+    'zs_neg': [('simplify', {})],
+    'idx12': [('unroll_for', {'times': 1}), ('simplify', {})],
     'muladd8': [('rw_fma', {}), ('simplify', {})],
     'q_a16': [('simplify', {}), ('lift_context', {})],
     'q_b8': [('simplify', {}), ('lift_context', {})],
